@@ -152,7 +152,7 @@ def gen_case(idx: int, seed: int, tier: str) -> Any:
     if rng.random() < 0.4:
         where = files[0].get("component") if layout == "component" else (files[0].get("services", {}).get(names[0], {}).get("component") if names else None)
         if isinstance(where, dict):
-            for kind in rng.sample(["Env", "Env_unset", "TextFile", "BinaryFile"], rng.randint(1, 3)):
+            for kind in rng.sample(["Env", "Env_unset", "Env_empty", "TextFile", "BinaryFile"], rng.randint(1, 3)):
                 tags.append(kind)
                 where["tag_" + kind] = {"__tag__": kind}
     # one mapping referenced from two places of the first file (PyYAML writes it as an anchor and an alias, and loads it
@@ -185,7 +185,7 @@ def gen_case(idx: int, seed: int, tier: str) -> Any:
             continue
         leaf = rng.choice(["a", "b", "nested.a", "nested.deep.x", "asphalt\\.core", "nested.asphalt\\.core", "newkey"])
         key = f"{base}.{leaf}" if base else rng.choice(["max_threads", "start_timeout", "opts.x", "opts.asphalt\\.core.level"] if not tier_b else ["max_threads", "start_timeout"])
-        val = rng.choice(["5", "[1, 2]", "{k: 1}", "", "true", "plain", "'quoted: text'", "3.5", "a=b", "@TAG:Env", "@TAG:TextFile", "@TAG:BinaryFile"])
+        val = rng.choice(["5", "[1, 2]", "{k: 1}", "", "true", "plain", "'quoted: text'", "3.5", "a=b", "@TAG:Env", "@TAG:Env_empty", "@TAG:TextFile", "@TAG:BinaryFile"])
         if key in ("max_threads", "start_timeout"):
             val = rng.choice(["4", "6"])
         sets.append(["kv", key, val])
@@ -232,9 +232,10 @@ def materialize(case: dict[str, Any]) -> tuple[list[str], list[dict[str, Any]], 
     """write the YAML files; returns (paths, model documents with tags replaced by their values, environment)"""
     yaml, Dumper = _yaml()
     wd = workdir()
-    env: dict[str, str | None] = {"VERIF_E1": "value from the environment", "VERIF_UNSET": None, "ASPHALT_SERVICE": case["env_service"]}
-    values = {"Env": "value from the environment", "Env_unset": None, "TextFile": "text from a file\nsecond line\n", "BinaryFile": b"\x00\x01binary\xff"}
-    tagobj = {"Env": Tag("Env", "VERIF_E1"), "Env_unset": Tag("Env", "VERIF_UNSET"), "TextFile": Tag("TextFile", os.path.join(wd, "text file.txt")),
+    env: dict[str, str | None] = {"VERIF_E1": "value from the environment", "VERIF_UNSET": None, "VERIF_EMPTY": "", "ASPHALT_SERVICE": case["env_service"]}
+    values = {"Env": "value from the environment", "Env_unset": None, "Env_empty": "",  # (a variable that is set, to the empty string)
+              "TextFile": "text from a file\nsecond line\n", "BinaryFile": b"\x00\x01binary\xff"}
+    tagobj = {"Env": Tag("Env", "VERIF_E1"), "Env_unset": Tag("Env", "VERIF_UNSET"), "Env_empty": Tag("Env", "VERIF_EMPTY"), "TextFile": Tag("TextFile", os.path.join(wd, "text file.txt")),
               "BinaryFile": Tag("BinaryFile", os.path.join(wd, "blob.bin"))}
 
     def conv(x: Any, for_model: bool) -> Any:
@@ -267,6 +268,7 @@ def tagged_override(value: str) -> tuple[str, Any] | None:
         return None
     wd = workdir()
     return {"Env": ("!Env VERIF_E1", "value from the environment"),
+            "Env_empty": ("!Env VERIF_EMPTY", ""),
             "TextFile": ("!TextFile " + os.path.join(wd, "text file.txt"), "text from a file\nsecond line\n"),
             "BinaryFile": ("!BinaryFile " + os.path.join(wd, "blob.bin"), b"\x00\x01binary\xff")}[value[5:]]
 
@@ -362,7 +364,7 @@ def run_case(case: Any) -> dict[str, Any]:
         out = os.path.join(workdir(), "tier_b_out.json")
         if os.path.exists(out):
             os.unlink(out)
-        penv = {k: v for k, v in os.environ.items() if k not in ("ASPHALT_SERVICE", "VERIF_E1", "VERIF_UNSET")}
+        penv = {k: v for k, v in os.environ.items() if k not in ("ASPHALT_SERVICE", "VERIF_E1", "VERIF_UNSET", "VERIF_EMPTY")}
         for k, v in env.items():
             if v is not None:
                 penv[k] = v
